@@ -320,11 +320,13 @@ func checkC10(c *sizeCase) *CheckResult {
 	exhausted := cv.Err != nil && cv.Err.Code == 8
 	// A4: a size rejection does not deliver the oversized message
 	// (the rejection has to be about the request: the transcoder had to hold the request message - it
-	// changed codec or compression, or rebuilt it from or into a URL - or else nothing of the response
+	// changed codec or compression, or rebuilt it from or into a URL (a REST body that reaches the
+	// backend byte for byte was not rebuilt) - or else nothing of the response
 	// comes near the limit; a request that is only re-framed streams through, and the same RPC may
 	// still be refused for the size of its response)
 	reqConverted := view != nil && (view.Codec != sc.Client.Codec || view.Compression != effectiveCompression(&sc.Client, out.Sent) ||
-		sc.Client.Form == FormConnectGet || sc.Client.Form == FormREST || view.Protocol == ProtoREST)
+		sc.Client.Form == FormConnectGet || view.Protocol == ProtoREST ||
+		(sc.Client.Form == FormREST && !(len(view.Payloads) == 1 && out.Sent != nil && len(out.Sent.Payloads) == 1 && string(view.Payloads[0]) == string(out.Sent.Payloads[0]))))
 	if exhausted && c.Direction == "request" && view != nil && (reqConverted || responseFarBelow(sc, out, L)) {
 		for i, p := range view.Payloads {
 			if len(p) > L && i < len(view.Msgs) && view.Msgs[i] != nil {
